@@ -546,7 +546,7 @@ class TraitDictObject(TraitDict):
         if object is None:
             return
 
-        if getattr(object, self.name) is not self:
+        if getattr(object, self.name, None) is not self:
             # Workaround having this dict inside another container which
             # also uses the name_items trait for notification.
             # See enthought/traits#25
